@@ -11,7 +11,7 @@ from simkit.net import ConnectPlan
 ID = "C22"
 LEVEL = "exploration"
 ENGINE = "simkit/proxy-world"
-QUICK_RUNS = 16000
+QUICK_RUNS = 12000
 QUICK_BUDGET_S = 120
 THOROUGH_BUDGET_S = 900
 CHUNK = 50
